@@ -261,6 +261,11 @@ type params struct {
 	Threads [][]string `json:"threads"` // calls per client goroutine
 	Fault   string     `json:"fault,omitempty"`
 	FaultAt int        `json:"fault_at"`
+	// Other: calls made one after another by a SECOND Client of the same
+	// process, on its own healthy connection, after the first client's
+	// goroutines have returned. Pools recycle (process-wide response pool).
+	Other []string `json:"other_client,omitempty"`
+	Pool  string   `json:"pool_policy,omitempty"` // what a recycling pool hands out: lifo | fifo
 }
 
 func scenario(p params) *fw.Scenario {
@@ -272,12 +277,20 @@ func scenario(p params) *fw.Scenario {
 	if p.Fault != fNone {
 		name += fmt.Sprintf(" | %s at reply %d", p.Fault, p.FaultAt)
 	}
+	if len(p.Other) > 0 {
+		name += " | then another client: " + strings.Join(p.Other, ">") + " | pools " + p.Pool
+	}
 	return &fw.Scenario{Name: name, Params: p, DeadlockOK: true, New: func() (func(), func(*vsched.Execution) ([]fw.Issue, string)) {
-		var srv *srvState
+		var srv, srv2 *srvState
 		var results []string
 		var bad []string
+		other := ""
 		body := func() {
-			results, bad = nil, nil
+			results, bad, other, srv2 = nil, nil, "", nil
+			if len(p.Other) > 0 {
+				vsync.PoolRecycle, vsync.PoolPolicy = true, p.Pool
+				defer func() { vsync.PoolRecycle, vsync.PoolPolicy = false, "" }()
+			}
 			cc, sc := vpipe.NewConnPair("c")
 			srv = &srvState{peer: rawpeer.New(sc), conn: sc, bound: map[uint32]bool{}, binding: map[uint32]bool{}, faultAt: -1, faultKind: p.Fault,
 				calls: p.Threads, sent: make([]int, len(p.Threads)), answered: make([]int, len(p.Threads)), fidOwner: map[uint32]int{}}
@@ -310,77 +323,115 @@ func scenario(p params) *fw.Scenario {
 			var wg vsync.WaitGroup
 			wg.Add(len(p.Threads))
 			res := make([][]string, len(p.Threads))
+			runCalls := func(root p9.File, ti int, calls []string, out *[]string) {
+				var f p9.File
+				for k, call := range calls {
+					id := uint64(ti*16 + k + 1)
+					switch call {
+					case "getattr":
+						mask := p9.AttrMask{Mode: id&1 != 0, NLink: id&2 != 0, UID: id&4 != 0, GID: id&8 != 0, RDev: id&16 != 0, ATime: id&32 != 0}
+						q, valid, _, err := root.GetAttr(mask)
+						if err != nil {
+							*out = append(*out, "getattr:err")
+						} else if q.Path != id || valid != mask {
+							*out = append(*out, fmt.Sprintf("getattr:WRONG(path=%d want %d)", q.Path, id))
+						} else {
+							*out = append(*out, "getattr:ok")
+						}
+					case "unlink-err":
+						err := root.UnlinkAt(fmt.Sprintf("u%d", id), 0)
+						var en linux.Errno
+						switch {
+						case err == nil:
+							*out = append(*out, "unlink-err:WRONG(no error)")
+						case errors.As(err, &en) && uint32(en) == uint32(200+id):
+							*out = append(*out, "unlink-err:ok")
+						case errors.As(err, &en) && uint32(en) >= 200 && uint32(en) < 400:
+							*out = append(*out, fmt.Sprintf("unlink-err:WRONG(errno %d want %d)", uint32(en), 200+id))
+						default:
+							*out = append(*out, "unlink-err:err")
+						}
+					case "walk":
+						nm := fmt.Sprintf("n%d", id)
+						qs, nf, err := root.Walk([]string{nm})
+						want := token(refcodec.New(refcodec.Twalk, 0, uint32(0), uint32(0), []string{nm}))
+						if err != nil {
+							*out = append(*out, "walk:err")
+						} else if len(qs) != 1 || qs[0].Path != want {
+							*out = append(*out, "walk:WRONG")
+						} else {
+							*out = append(*out, "walk:ok")
+							f = nf
+						}
+					case "close":
+						if f == nil {
+							*out = append(*out, "close:nofile")
+							continue
+						}
+						if err := f.Close(); err != nil {
+							*out = append(*out, "close:err")
+						} else {
+							*out = append(*out, "close:ok")
+						}
+						f = nil
+					case "remove":
+						if f == nil {
+							*out = append(*out, "remove:nofile")
+							continue
+						}
+						type remover interface{ Remove() error }
+						if err := f.(remover).Remove(); err != nil {
+							*out = append(*out, "remove:err")
+						} else {
+							*out = append(*out, "remove:ok")
+						}
+						f = nil
+					}
+				}
+			}
 			for ti, calls := range p.Threads {
 				ti, calls := ti, calls
 				vsched.GoNamed(fmt.Sprintf("caller%d", ti), func() {
 					defer wg.Done()
-					var f p9.File
-					for k, call := range calls {
-						id := uint64(ti*16 + k + 1)
-						switch call {
-						case "getattr":
-							mask := p9.AttrMask{Mode: id&1 != 0, NLink: id&2 != 0, UID: id&4 != 0, GID: id&8 != 0, RDev: id&16 != 0, ATime: id&32 != 0}
-							q, valid, _, err := root.GetAttr(mask)
-							if err != nil {
-								res[ti] = append(res[ti], "getattr:err")
-							} else if q.Path != id || valid != mask {
-								res[ti] = append(res[ti], fmt.Sprintf("getattr:WRONG(path=%d want %d)", q.Path, id))
-							} else {
-								res[ti] = append(res[ti], "getattr:ok")
-							}
-						case "unlink-err":
-							err := root.UnlinkAt(fmt.Sprintf("u%d", id), 0)
-							var en linux.Errno
-							switch {
-							case err == nil:
-								res[ti] = append(res[ti], "unlink-err:WRONG(no error)")
-							case errors.As(err, &en) && uint32(en) == uint32(200+id):
-								res[ti] = append(res[ti], "unlink-err:ok")
-							case errors.As(err, &en) && uint32(en) >= 200 && uint32(en) < 400:
-								res[ti] = append(res[ti], fmt.Sprintf("unlink-err:WRONG(errno %d want %d)", uint32(en), 200+id))
-							default:
-								res[ti] = append(res[ti], "unlink-err:err")
-							}
-						case "walk":
-							nm := fmt.Sprintf("n%d", id)
-							qs, nf, err := root.Walk([]string{nm})
-							want := token(refcodec.New(refcodec.Twalk, 0, uint32(0), uint32(0), []string{nm}))
-							if err != nil {
-								res[ti] = append(res[ti], "walk:err")
-							} else if len(qs) != 1 || qs[0].Path != want {
-								res[ti] = append(res[ti], "walk:WRONG")
-							} else {
-								res[ti] = append(res[ti], "walk:ok")
-								f = nf
-							}
-						case "close":
-							if f == nil {
-								res[ti] = append(res[ti], "close:nofile")
-								continue
-							}
-							if err := f.Close(); err != nil {
-								res[ti] = append(res[ti], "close:err")
-							} else {
-								res[ti] = append(res[ti], "close:ok")
-							}
-							f = nil
-						case "remove":
-							if f == nil {
-								res[ti] = append(res[ti], "remove:nofile")
-								continue
-							}
-							type remover interface{ Remove() error }
-							if err := f.(remover).Remove(); err != nil {
-								res[ti] = append(res[ti], "remove:err")
-							} else {
-								res[ti] = append(res[ti], "remove:ok")
-							}
-							f = nil
-						}
-					}
+					runCalls(root, ti, calls, &res[ti])
 				})
 			}
 			wg.Wait()
+			if len(p.Other) > 0 {
+				// a second Client of the same process on its own, healthy connection
+				cc2, sc2 := vpipe.NewConnPair("o")
+				shape := make([][]string, len(p.Threads)+1)
+				shape[len(p.Threads)] = p.Other
+				srv2 = &srvState{peer: rawpeer.New(sc2), conn: sc2, bound: map[uint32]bool{}, binding: map[uint32]bool{}, faultAt: -1,
+					calls: shape, sent: make([]int, len(shape)), answered: make([]int, len(shape)), fidOwner: map[uint32]int{}}
+				var wg2 vsync.WaitGroup
+				wg2.Add(1)
+				vsched.GoNamed("server2", func() {
+					defer wg2.Done()
+					m, _ := srv2.peer.Recv()
+					srv2.peer.Send(refcodec.New(refcodec.Rversion, m.Tag, uint32(8192), "9P2000.L.Google.7"))
+					m, _ = srv2.peer.Recv()
+					srv2.onRequest(m)
+					srv2.reply(0)
+					srv2.serve()
+				})
+				var out []string
+				c2, err := p9.NewClient(cc2)
+				if err != nil {
+					out = append(out, "NewClient:err("+err.Error()+")")
+				} else if root2, err := c2.Attach(""); err != nil {
+					out = append(out, "Attach:err("+err.Error()+")")
+				} else {
+					runCalls(root2, len(p.Threads), p.Other, &out)
+				}
+				other = strings.Join(out, ",")
+				if c2 != nil {
+					c2.Close()
+				} else {
+					cc2.Close()
+				}
+				wg2.Wait()
+			}
 			vsched.EndExplore()
 			for _, r := range res {
 				results = append(results, strings.Join(r, ","))
@@ -412,8 +463,16 @@ func scenario(p params) *fw.Scenario {
 					}
 				}
 			}
+			if srv2 != nil {
+				for _, s := range srv2.issues {
+					is = append(is, fw.Issue{Fingerprint: "server-observed|other-client|" + generalize(s), Summary: s})
+				}
+			}
+			if e.End == vsched.EndComplete && (strings.Contains(other, ":err") || strings.Contains(other, "WRONG")) {
+				is = append(is, fw.Issue{Fingerprint: "other-client-affected", Summary: fmt.Sprintf("a call of ANOTHER client of the same process, whose own connection is healthy and whose server answered everything correctly, failed or got foreign data after the first client's connection broke (%s): %s", p.Fault, other)})
+			}
 			sort.Strings(results)
-			return is, fmt.Sprintf("%v order=%v maxout=%d", results, srv.order, srv.maxOut)
+			return is, fmt.Sprintf("%v order=%v maxout=%d other=%s", results, srv.order, srv.maxOut, other)
 		}
 		return body, check
 	}}
@@ -437,7 +496,7 @@ func generalize(s string) string {
 }
 
 func run(ctx *fw.Ctx, rep *fw.Report) {
-	rep.Rule = "(i) 2-3 goroutines x 1-2 calls (GetAttr, Walk, Close, Remove, and UnlinkAt answered with a request-unique errno) on one real p9.Client against a scripted server whose actions (read the next request / answer any pending request) are a free data choice, i.e. every reply order incl. answering before the next request is read; all thread interleavings with at most 1 (quick) / 2 (thorough) preemptions, without reduction (the client's hand-off logic alone has more than 10^5 Mazurkiewicz traces for two calls, so unbounded DPOR does not terminate in budget); (ii) the same sessions with one fault (close, half frame then close, garbage frame, unknown tag, wrong reply type, size field 3) in place of the k-th reply for every k; (iii) allocator: explicit-state BFS over all Get/Put sequences of the tag/fid allocator and 2-thread schedules; oracle at the server: outstanding tags pairwise distinct and never NOTAG, a new fid is never one the server has bound or is binding (fault-free sessions), at the callers: own token returned, errors only after a fault, no caller blocked at the end (deadlock detection); distinct = distinct (results, reply order) outcomes"
+	rep.Rule = "(i) 2-3 goroutines x 1-2 calls (GetAttr, Walk, Close, Remove, and UnlinkAt answered with a request-unique errno) on one real p9.Client against a scripted server whose actions (read the next request / answer any pending request) are a free data choice, i.e. every reply order incl. answering before the next request is read; all thread interleavings with at most 1 (quick) / 2 (thorough) preemptions, without reduction (the client's hand-off logic alone has more than 10^5 Mazurkiewicz traces for two calls, so unbounded DPOR does not terminate in budget); (ii) the same sessions with one fault (close, half frame then close, garbage frame, unknown tag, wrong reply type, size field 3) in place of the k-th reply for every k; (iv) two-call sessions broken by a close / half frame / garbage frame, followed by two calls of a SECOND client of the same process on its own healthy connection, with recycling pools (handing out the most recently / the least recently put object: both policies): the second client's calls must succeed; (iii) allocator: explicit-state BFS over all Get/Put sequences of the tag/fid allocator and 2-thread schedules; oracle at the server: outstanding tags pairwise distinct and never NOTAG, a new fid is never one the server has bound or is binding (fault-free sessions), at the callers: own token returned, errors only after a fault, no caller blocked at the end (deadlock detection); distinct = distinct (results, reply order) outcomes"
 	rep.Assumptions = append(rep.Assumptions, "independence classes of DESIGN §2.2", "fid freshness is asserted in sessions without protocol faults only (DESIGN §4.0)", "GC finalizers of client files are off (DESIGN §6)")
 	shapes := [][][]string{
 		{{"getattr"}, {"getattr"}},
@@ -466,6 +525,16 @@ func run(ctx *fw.Ctx, rep *fw.Report) {
 			}
 		}
 	}
+	// (iv) a second client of the same process after the first one's connection broke
+	nOther := 0
+	for _, fk := range []string{fClose, fHalfClose, fGarbage} {
+		for k := 0; k < 2; k++ {
+			for _, pol := range []string{"lifo", "fifo"} {
+				scs = append(scs, scenario(params{Threads: [][]string{{"getattr"}, {"getattr"}}, Fault: fk, FaultAt: k, Other: []string{"getattr"}, Pool: pol}))
+				nOther++
+			}
+		}
+	}
 	rep.Info["scenarios_total"] = len(scs)
 	budget := 45 * time.Second
 	if !ctx.Quick() {
@@ -487,7 +556,11 @@ func run(ctx *fw.Ctx, rep *fw.Report) {
 		if !ctx.Quick() {
 			bounds = []int{0, 1, 2}
 		}
-		fw.RunScenario(ctx, rep, sc, fw.SchedOpts{Budget: budget, ForcePB: -1, SkipDPOR: true, Wide: wide, Fallback: bounds, Deviations: -1})
+		dev := -1
+		if strings.Contains(sc.Name, "then another client") {
+			wide = true
+		}
+		fw.RunScenario(ctx, rep, sc, fw.SchedOpts{Budget: budget, ForcePB: -1, SkipDPOR: true, Wide: wide, Fallback: bounds, Deviations: dev})
 	}
 	rep.Info["preemption_bound_goal"] = map[bool]int{true: 1, false: 2}[ctx.Quick()]
 	if ctx.Shard == 0 {
